@@ -33,11 +33,14 @@ Cases == JsonDeserialize(IOEnv.TRACE_FILE)
 NCases == Len(Cases)
 BlockSize == 64
 VARIABLES blk, i
-tvars == <<blk, i>>
-TInit == blk = 0 /\ i = 0
-TNext == \/ blk = 0 /\ blk' \in 1..((NCases + BlockSize - 1) \div BlockSize) /\ i' = 0
-         \/ blk > 0 /\ i = 0 /\ blk' = blk
-            /\ i' \in {j \in ((blk - 1) * BlockSize + 1)..(blk * BlockSize) : j <= NCases}
+tvars == <<blk, i, vars>>
+\* the variables of the step-by-step machine are not used here (the laws are evaluated as operators)
+Idle == /\ cas = 0 /\ pc = "trace" /\ txt = <<>> /\ idx = 0 /\ segs = <<>> /\ ip = 0 /\ world = 0 /\ res = 0
+TInit == blk = 0 /\ i = 0 /\ Idle
+TNext == /\ UNCHANGED vars
+         /\ \/ blk = 0 /\ blk' \in 1..((NCases + BlockSize - 1) \div BlockSize) /\ i' = 0
+            \/ blk > 0 /\ i = 0 /\ blk' = blk
+               /\ i' \in {j \in ((blk - 1) * BlockSize + 1)..(blk * BlockSize) : j <= NCases}
 TSpec == TInit /\ [][TNext]_tvars
 B(b) == IF b THEN 1 ELSE 0
 
@@ -57,7 +60,7 @@ IoVerdict(c) ==
   LET cc == [cmd |-> <<EmptyLine>>, ins |-> c.ins, outs |-> c.outs, tempdir |-> c.td = 1, dsh |-> <<>>]
       w == Wrap(<<EmptyLine>>, 0)
       orderOK == SegContract(cc, c.segs)
-      runOK == LawStaging(cc, RunSegs(cc, w, World0(cc), c.segs, 1))
+      runOK == LET end == RunSegs(cc, w, World0(cc), c.segs) IN LawStaging(cc, end)
       shapeOK == ToJson(c.res) = ToJson(ShapeMap(c.outs))
       asbuiltOK == c.segs = Assemble(cc)
   IN <<B(orderOK), B(runOK), B(shapeOK), B(asbuiltOK)>>
